@@ -163,4 +163,19 @@ PLANS = {
                        "stub": ["disk (simulated over real files)", "sink"]},
         "assumptions": ["a failing schema preview at plan time counts as the query failing"],
     },
+    "C29": {
+        "level": "exploration",
+        "technique": "deterministic simulation under the Go race detector: the C19/C02/C23/C06 workloads and a shared-state scenario (JSON on both join sides, regexp filters in both branches, LIMIT, injected faults, stalling sink) run in a -race build of the simulator whose gate operations are invisible to the detector; seeded schedules; quiescence-based deadlock oracle",
+        "level_text": ("seeded exploration of schedules of real concurrent query execution (join input goroutines, JSON line reader / parser pool / consumer, shared regexp caches) with the race detector as data-race oracle "
+                       "and 'quiescent, nothing left to release, Run has not returned' as the deadlock oracle, including queries that stop early because of LIMIT or an injected error; "
+                       "stdin runs in the process tier under -race with uncontrolled scheduling (monitored, not scheduled)"),
+        "level_note": ("trusted: Go race detector (happens-before based, reports only races that occur in explored executions); controller gate operations are bracketed by runtime.RaceDisable/Enable so they add no happens-before edges; "
+                       "ristretto cache internals are third-party threads that run for real; goroutines a query leaves behind after Run returned are drained and counted as a probe, not a violation"),
+        "parts": [{"check": "c29", "race": True, "quick": 6000, "thorough": 400000, "env": {"VERIF_SHRINK_BUDGET": "150"}},
+                  ],
+        "rule": "each run draws a scenario family and its workload, knobs and complete gate release order; non-trivial = >=2 input rows/messages; distinct = distinct (shape, schedule) pairs",
+        "components": {"real": ["nodes.StreamJoin/OuterJoin input goroutines", "datasources/json reader, worker pool (overlay constructor), consumer", "functions regexp/LIKE caches (ristretto)", "planner", "Limit", "files.OpenLocalFile"],
+                       "stub": ["sim tables / simulated disk", "sink (optionally stalling)"]},
+        "assumptions": ["runtime differences between go1.26.8 (simulator) and the shipped toolchain are out of scope"],
+    },
 }
